@@ -370,6 +370,16 @@ func c45(c *Ctx) {
 		cs := "github.com/envoyproxy/go-control-plane/envoy/config/core/v3"
 		c.Rejects(f, "foreign-rds-config-source-rejected", IsNil(CallRes(Callee(cs, "ConfigSource.GetAds"), 0)), IsNil(CallRes(Callee(cs, "ConfigSource.GetSelf"), 0)))
 	})
+	c.Ob("server-lds-invariants", "R2", "processNetworkFilters: a server-side listener whose network filter is not the HTTP connection manager, whose (first) HCM has non-zero xff_num_trusted_hops or original-IP detection extensions, whose RDS config source is not ADS, or whose route configuration name is empty, is never accepted", 5, func() {
+		f := c.fn(xdsrsrc, "processNetworkFilters")
+		hcm := "github.com/envoyproxy/go-control-plane/envoy/extensions/filters/network/http_connection_manager/v3"
+		cs := "github.com/envoyproxy/go-control-plane/envoy/config/core/v3"
+		c.Rejects(f, "unsupported-network-filter-rejected", Cmp(CallRes(CalleeX("google.golang.org/protobuf/types/known/anypb", "Any.GetTypeUrl"), 0), token.NEQ, AnyV))
+		c.Rejects(f, "xff-hops-rejected", CmpInt(FieldLoad(c.field(hcm, "HttpConnectionManager", "XffNumTrustedHops")), token.NEQ, 0))
+		c.Rejects(f, "ip-detection-extensions-rejected", CmpInt(LenOf(FieldLoad(c.field(hcm, "HttpConnectionManager", "OriginalIpDetectionExtensions"))), token.NEQ, 0))
+		c.Rejects(f, "non-ads-config-source-rejected", IsNil(CallRes(Callee(cs, "ConfigSource.GetAds"), 0)))
+		c.Rejects(f, "empty-route-config-name-rejected", Cmp(CallRes(Callee(hcm, "Rds.GetRouteConfigName"), 0), token.EQL, ConstStr("")))
+	})
 	c.Ob("rds-invariants", "R2", "routesProtoToSlice: a route needs a match and a path specifier; weighted clusters: sum in uint64 checked against MaxUint32, total 0 rejected; every collected route has an action type set", 5, func() {
 		f := c.fn(xdsrsrc, "routesProtoToSlice")
 		routepb := "github.com/envoyproxy/go-control-plane/envoy/config/route/v3"
